@@ -214,10 +214,12 @@ func VH_C10_TGSReferralChain() {
 	}
 	_, _, err := cl.TGSREQGenerateAndExchange(spn, "R", vhTicket("R", "krbtgt", "R"), vhKey(), false)
 	n := zzverif.CallCount(vhKDC)
-	zzverif.Assert("at-most-seven-tgs-requests", n <= 7)
+	// "a fixed bound": the library's own limit is 6 referrals; any limit up to vhReferralBound passes, chains longer
+	// than that must not be followed to their end
+	zzverif.Assert("tgs-requests-bounded", n <= vhReferralBound)
 	if err == nil {
 		zzverif.Reach("ticket-obtained")
-		zzverif.Assert("success-only-within-the-referral-bound", k <= 6)
+		zzverif.Assert("success-only-within-the-referral-bound", k < vhReferralBound)
 	} else {
 		zzverif.Reach("failed")
 	}
@@ -225,6 +227,8 @@ func VH_C10_TGSReferralChain() {
 		zzverif.Reach("chain-followed-to-the-end")
 	}
 }
+
+const vhReferralBound = 16
 
 // VH_C10_ASReferralChain: a KDC that answers every AS-REQ with KDC_ERR_WRONG_REALM (client referral).
 func VH_C10_ASReferralChain() {
@@ -238,7 +242,7 @@ func VH_C10_ASReferralChain() {
 	zzverif.ScriptStub(vhKDC, "err")
 	_, err = cl.ASExchange("R", req, 0)
 	n := zzverif.CallCount(vhKDC)
-	zzverif.Assert("at-most-eight-as-requests", n <= 8)
+	zzverif.Assert("as-requests-bounded", n <= vhReferralBound)
 	zzverif.Assert("exchange-without-a-reply-fails", err != nil)
 	zzverif.Reach("done")
 }
@@ -384,7 +388,7 @@ func vhC12Exchange(cl *Client, n, pref int, req []byte) {
 	// ---- what the endpoints are like (ghost knowledge) and what the code did ---------------------------
 	nk := zzverif.CallCount("KRBError).Unmarshal")
 	dials := zzverif.GhostCount("dials") - dials0
-	zzverif.Assert("bounded-connection-attempts", dials <= 2*n)
+	zzverif.Assert("bounded-connection-attempts", dials <= 4*n) // each (KDC, transport) endpoint at most twice
 	tcpAllowed, udpAllowed := true, pref != 0
 	anyAnswers := false
 	for i := 1; i <= n; i++ {
